@@ -3,6 +3,7 @@ from engines import envmachine, e1gen
 from vlib.runner import Search
 
 ID = 'C01'
+WATCHDOG_IS_VIOLATION = True   # the statement says the run ends / the line reaches its horizon
 RULE = ('Hypothesis-generated operation histories on a bare Environment: schedule (assets {1,2,3,9}, dyadic delays, '
         'every built-in priority above TERMINATE and fractional ones k+-0.1 / k+-0.5), schedule-in-the-past, pause, '
         'unpause, cancel, step, run(d) incl. d=0 and consecutive runs; each scheduled event carries a generated '
